@@ -126,7 +126,9 @@ def install(reg):
     reg.add(FuncContract("parser.split_uri", params={"uri": Bytes}, returns=TupleOf(Str1, Str1, Str1, Str1, Str1),
         raises=["parser.ParsingError"], props=["inline-on-constants"]))
     reg.inline.add("parser.unquote_bytes_to_wsgi")
-    reg.add(FuncContract("parser.HTTPRequestParser.parse_header", params={"header_plus": Bytes},
+    # parse_header is a helper of received(): it is entered while the representation invariant is temporarily broken
+    # (header_bytes_received already updated, header_plus not yet), so its body is verified from `requires` alone
+    reg.add(FuncContract("parser.HTTPRequestParser.parse_header", params={"header_plus": Bytes}, assume_invariant=False,
         requires=[("fresh-parser", "not self.completed and self.error is None and self.body_rcv is None and not self.chunked"
                                    " and self.content_length == 0 and not self.connection_close and not self.expect_continue and dict_empty(self.headers)")],
         loops={0: LoopSpec(invariants=[("true", "True")]), 1: LoopSpec(invariants=[("true", "True")])},
